@@ -8,27 +8,27 @@ import (
 )
 
 type Codes struct {
-	Version         int64                        `json:"ofp_version_1_3"`
-	OfpType         map[string]int64             `json:"ofp_type"`
-	CtorOfpType     map[string]string            `json:"ctor_ofp_type"`
-	SwitchSideCtors map[string]string            `json:"switch_side_ctors_without_type"`
-	VendorCtor      map[string]map[string]any    `json:"vendor_ctor"`
-	NxVendor        int64                        `json:"nx_vendor_id"`
-	OnfExp          int64                        `json:"onf_experimenter_id"`
-	ActionType      map[string]int64             `json:"ofp_action_type"`
-	CtorAction      map[string]string            `json:"ctor_action_type"`
-	InstrType       map[string]int64             `json:"ofp_instruction_type"`
-	CtorInstr       map[string]string            `json:"ctor_instruction_type"`
-	Nxast           map[string]int64             `json:"nxast"`
-	CtorNxast       map[string]string            `json:"ctor_nxast"`
-	HelloElem       map[string]int64             `json:"hello_elem_type"`
-	MatchType       map[string]int64             `json:"ofp_match_type"`
-	NxtSubtype      map[string]int64             `json:"nxt_subtype"`
-	OnfBundle       map[string]int64             `json:"onf_bundle_exp_type"`
-	Controller      map[string]string            `json:"controller_kinds"`
-	SwitchKinds     map[string]string            `json:"switch_kinds"`
-	CtStateBits     map[string]int64             `json:"ct_state_bits"`
-	Extra           map[string]json.RawMessage   `json:"-"`
+	Version         int64                      `json:"ofp_version_1_3"`
+	OfpType         map[string]int64           `json:"ofp_type"`
+	CtorOfpType     map[string]string          `json:"ctor_ofp_type"`
+	SwitchSideCtors map[string]string          `json:"switch_side_ctors_without_type"`
+	VendorCtor      map[string]map[string]any  `json:"vendor_ctor"`
+	NxVendor        int64                      `json:"nx_vendor_id"`
+	OnfExp          int64                      `json:"onf_experimenter_id"`
+	ActionType      map[string]int64           `json:"ofp_action_type"`
+	CtorAction      map[string]string          `json:"ctor_action_type"`
+	InstrType       map[string]int64           `json:"ofp_instruction_type"`
+	CtorInstr       map[string]string          `json:"ctor_instruction_type"`
+	Nxast           map[string]int64           `json:"nxast"`
+	CtorNxast       map[string]string          `json:"ctor_nxast"`
+	HelloElem       map[string]int64           `json:"hello_elem_type"`
+	MatchType       map[string]int64           `json:"ofp_match_type"`
+	NxtSubtype      map[string]int64           `json:"nxt_subtype"`
+	OnfBundle       map[string]int64           `json:"onf_bundle_exp_type"`
+	Controller      map[string]string          `json:"controller_kinds"`
+	SwitchKinds     map[string]string          `json:"switch_kinds"`
+	CtStateBits     map[string]int64           `json:"ct_state_bits"`
+	Extra           map[string]json.RawMessage `json:"-"`
 }
 
 func loadSpec(name string, into any) error {
